@@ -139,9 +139,16 @@ DirBindings(attrs, el, host, i) ==
           [] attrs[i].k = "vmodel" /\ ~host -> <<[t |-> "binding"] @@ VModelBinding(attrs[i], el)>>
           [] OTHER -> <<>>) \o DirBindings(attrs, el, host, i + 1)
 
-PropsDenoteArgs(args, o) ==
+(* Vue's merging applies where something is combined: a spread (or a transformOn object), or a   *)
+(* repeated key; a lone written attribute is passed as written (C14: "mergeProps only elements  *)
+(* with a spread or repeated attribute").                                                        *)
+SharesKey(a, b) == \E i \in 1..Len(EntriesOf(a)) : ObjHas(EntriesOf(b), EntriesOf(a)[i][1])
+Combines(args, spreadLike) ==
+  spreadLike \/ \E i, j \in 1..Len(args) : i < j /\ SharesKey(args[i], args[j])
+
+PropsDenoteArgs(args, o, spreadLike) ==
   IF args = <<>> THEN NullObj
-  ELSE VNodeProps(IF o.mergeProps THEN MergeProps(args) ELSE ObjectSpread(args))
+  ELSE VNodeProps(IF o.mergeProps /\ Combines(args, spreadLike) THEN MergeProps(args) ELSE ObjectSpread(args))
 
 (* ---- children of non-component hosts ---- *)
 RECURSIVE ChildrenList(_, _, _), DenoteElem(_, _)
@@ -221,7 +228,9 @@ SlotsDenote(el, o) ==
 DenoteElem(el, o) ==
   LET host  == IsComponentHost(el.tag, o)
       attrs == ExpandVModels(el.attrs)
-      P(alt) == PropsDenoteArgs(PropArgs(attrs, o, host, 1, alt), o)
+      spreadLike == \E i \in 1..Len(attrs) : \/ attrs[i].k = "spread"
+                                               \/ (o.transformOn /\ attrs[i].k = "plain" /\ attrs[i].name \in {"on", "nativeOn"})
+      P(alt) == PropsDenoteArgs(PropArgs(attrs, o, host, 1, alt), o, spreadLike)
       argModelOnElement == ~host /\ \E i \in 1..Len(attrs) : attrs[i].k = "vmodel" /\ attrs[i].argform # "none"
   IN
   [t |-> "vnode", factory |-> Factory(o),
@@ -237,16 +246,21 @@ ClassTokens(cp, i, cur) ==      \* split on JS whitespace, drop empties
   ELSE IF cp[i] \in JsWhitespace THEN (IF cur = <<>> THEN <<>> ELSE <<cur>>) \o ClassTokens(cp, i + 1, <<>>)
   ELSE ClassTokens(cp, i + 1, Append(cur, cp[i]))
 
-SeqToSet(xs) == {xs[i] : i \in 1..Len(xs)}
-ListenerSet(v) == IF v.t = "arr" THEN SeqToSet(v.xs) ELSE IF Truthy(v) THEN {v} ELSE {}
+(* what Vue will invoke for a listener prop: nested arrays flattened, falsy members dropped *)
+RECURSIVE ListenerSeq(_), ListenerSeqOf(_, _)
+ListenerSeqOf(xs, i) == IF i > Len(xs) THEN <<>> ELSE ListenerSeq(xs[i]) \o ListenerSeqOf(xs, i + 1)
+ListenerSeq(v) == IF v.t = "arr" THEN ListenerSeqOf(v.xs, 1) ELSE IF Truthy(v) THEN <<v>> ELSE <<>>
 
+SeqToSet(xs) == {xs[i] : i \in 1..Len(xs)}
 RECURSIVE Accepts(_, _), AcceptsSeq(_, _), AcceptsEntries(_, _), AcceptsProps(_, _)
 AcceptsSeq(os, ds) == Len(os) = Len(ds) /\ \A i \in 1..Len(ds) : Accepts(os[i], ds[i])
 AcceptsEntries(oes, des) ==       \* as maps: same keys, each value accepted
   /\ \A i \in 1..Len(des) : ObjHas(oes, des[i][1]) /\ Accepts(ObjGet(oes, des[i][1]), des[i][2])
   /\ \A i \in 1..Len(oes) : ObjHas(des, oes[i][1])
-PropKeyRelevant(es, k) ==         \* a falsy listener is the same as no listener
-  ~(IsOnKey(k) /\ ~Truthy(ObjGet(es, k)))
+PropKeyRelevant(es, k) ==         \* a listener prop with nothing to invoke is the same as no listener,
+  /\ ~(IsOnKey(k) /\ ObjGet(es, k).t # "upd" /\ ListenerSeq(ObjGet(es, k)) = <<>>)
+  /\ ~(k = "class" /\ (IsNullish(ObjGet(es, k))            \* ... an empty class the same as no class
+                       \/ (ObjGet(es, k).t = "str" /\ ClassTokens(ObjGet(es, k).cp, 1, <<>>) = <<>>)))
 AcceptsProps(o, d) ==
   IF d.t = "oneof" THEN \E i \in 1..Len(d.alts) : AcceptsProps(o, d.alts[i])
   ELSE IF d.t = "nullobj" THEN o.t = "null" \/ (o.t = "obj" /\ \A i \in 1..Len(o.es) : ~PropKeyRelevant(o.es, o.es[i][1]))
@@ -257,7 +271,10 @@ AcceptsProps(o, d) ==
              /\ ObjHas(o.es, k)
              /\ LET ov == ObjGet(o.es, k)  dv == d.es[i][2] IN
                 CASE k = "class" /\ dv.t = "str" -> ov.t = "str" /\ SeqToSet(ClassTokens(ov.cp, 1, <<>>)) = SeqToSet(ClassTokens(dv.cp, 1, <<>>))
-                  [] IsOnKey(k) /\ dv.t # "upd" -> ListenerSet(ov) = ListenerSet(dv)
+                  [] IsOnKey(k) /\ dv.t # "upd" ->      \* listener lists are compared as sets
+                       LET os == ListenerSeq(ov)  ds == ListenerSeq(dv) IN
+                       /\ \A p \in 1..Len(ds) : \E q \in 1..Len(os) : Accepts(os[q], ds[p])
+                       /\ \A q \in 1..Len(os) : \E p \in 1..Len(ds) : Accepts(os[q], ds[p])
                   [] OTHER -> Accepts(ov, dv)
        /\ \A i \in 1..Len(o.es) : LET k == o.es[i][1] IN PropKeyRelevant(o.es, k) => ObjHas(d.es, k) /\ PropKeyRelevant(d.es, k)
 
